@@ -43,6 +43,10 @@ def gen_family(r, sym_ok=True, ill_bias=0.5, var_names=("v",)):
         toks = g.dims(min_tokens=0)
         params.append({"name": f"x{j}", "toks": toks, "atype": r.choice(("np", "np", "np", "duck")),
                        "dtype": r.choice(("Float", "Float", "Shaped", "Num"))})
+    if r.random() < 0.12:
+        # parameters NAMED like axes (f(a: "a", b: "a+1")): a symbolic axis refers to the axis, never to the argument of that name
+        for p, nm in zip(params, r.sample(["a", "b", "c"], min(3, len(params)))):
+            p["name"] = nm
     bound = set()
     for p in params:
         for t in p["toks"]:
@@ -135,6 +139,8 @@ def family_scenario(seed, fam, r, max_perms=4, styles_per_perm=3, with_dc=True, 
             args = [({"t": "int", "v": fam["k"]} if nm == "k" else V[[p["name"] for p in fam["params"]].index(nm)])
                     for nm, _ in params]
             fns[fid] = {"style": style, "tc": tc, "kind": "fn", "params": params, "ret": ann_of(fam["ret"])}
+            if r.random() < 0.15:
+                fns[fid]["posonly"] = r.randrange(1, len(params) + 1)  # def f(x0, x1, /, x2): one more calling convention
             if same_name:
                 # redefinitions of 'the same' function: one name, parameters named by POSITION, so that the same
                 # parameter name carries different annotations in different siblings
